@@ -88,6 +88,10 @@ def run(ctx):
             ctx.violation("proof obligations of Properties_C11.v do not check", {"broken": "Properties_C11.v", "detail": proof}, found_input=False)
         c11_order.report(ctx, ores)
         c11_order.report_float(ctx, fres)
+    if fres.get("witness_tie_reproduced_on_cpp"):
+        # the circuit-level witness of c11_float_order_refuted (orderingHeight = 8, row 2^20 - 1 high): the real computeCellOrder
+        # breaks the tie of the two equal binary32 keys by index and Circuit::legalize moves the legal placement
+        ctx.known_finding("F23")
     cov = dict(proof)
     cov.update({"trusted_base": common.TRUSTED_BASE + ["computeCellOrder is modelled twice: over exact rationals (coq/CellOrder.v) and in binary32 with Flocq (coq/CellOrderFloat.v: one correctly rounded IEEE-754 operation per C++ operator, double -> float and int -> float conversions; theorems c11_float_* / c11_legalize_float_order_* on |orderingHeight| <= 4, coordinates <= 2^20). Trusted for the binary32 model: the compiler emits one binary32 SSE operation per float operator (x86-64, no -ffast-math, no -mfma; compared bit-exactly through the resulting order on non-dyadic cases by float_tie), Flocq's formalisation of IEEE-754, the real-number axioms of Coq's standard library"],
                 "evaluations": len(run.lines) + ores["runs"], "distinct_nontrivial": len(nontriv) + len(ores["nontrivial_lines"]),
